@@ -726,8 +726,12 @@ def run(ctx):
     correspond_box(ctx, "K-C16-box", bcases, [exe], [drv])
     # the same for QpMcSimplexDecomp (CS / ATM / ADM / MMR) incl. whole runs of QpSolver::solve
     rx = ctx.rng.fork("c16-sx")
-    xcases = [c for c in corpus if c[0].startswith("sbox")]
-    xcases += [gen_sx_case(rx, maxlen, ctx) for _ in range(500 if ctx.quick else 2500)]
+    # (corpus cases of the listed finding F-C16-4 run as their own batch, so that the big batch normally stays on the fast path)
+    xcorp = [c for c in corpus if c[0].startswith("sbox")]
+    if xcorp:
+        ctx.cov["evaluations"] += len(xcorp)
+        correspond_box(ctx, "K-C16-simplex-corpus", xcorp, [exe], [drv])
+    xcases = [gen_sx_case(rx, maxlen, ctx) for _ in range(500 if ctx.quick else 2500)]
     for c in xcases:
         for o in c: ctx.hist("sx_op_mix", o.split()[0])
     ctx.cov["evaluations"] += len(xcases)
